@@ -46,7 +46,7 @@ claim("C10",
       "Explicit-state breadth-first search over histories of root constructor (4 variants) / New / Set on up to 4 contexts, keys {a, b, len (a built-in helper name)}, values {1, 2, nil}, to depth 6 (quick) / 8 (thorough): every transition calls the real API on fresh objects (history replay), states are deduplicated on the reference model's state, and in every state the full observation vector (Value and Has of every context x key) is compared with the model. Aliasing and shadowing bugs need particular write orders on parents and children; BFS reaches all of them within the bound.",
       EXEC_NOTE + " State merging is sound because two histories with the same model state have the same futures under the model and the implementation's observable state was just checked to equal it.", "explicit-state BFS over operation histories on the real objects with a reference model (state = model state, invariant = full observation vector)", "DESIGN.md §4 C10")
 claim("C11",
-      "Every walk of <=5 (6 thorough) steps (field, index, map key, method call) through a depth-3 data graph whose leaf strings spell their own Go path, from 7 roots incl. roots and index variables named like fields, with 4 index spellings, used in an output tag, through let and as loop iterable; expected value computed by Go reflection navigation; plus every walk prefix extended by one uncompletable step. Oracle: exactly the leaf or an error, never another value; uncompletable: error or empty, never a leaf or panic.",
+      "Every walk of <=6 (7 thorough) steps (field, index, map key, method call) through a depth-3 data graph whose leaf strings spell their own Go path, from 7 roots incl. roots and index variables named like fields, with 4 index spellings, used in an output tag, through let and as loop iterable; expected value computed by Go reflection navigation; plus every walk prefix extended by one uncompletable step. Oracle: exactly the leaf or an error, never another value; uncompletable: error or empty, never a leaf or panic.",
       EXEC_NOTE + " A completable path that fails with an error is accepted (the property's 'or fails'); the evidence counts how many completable paths yield their value.", "bounded exhaustive enumeration of access paths over a self-describing data graph on the real evaluator vs. reflection navigation", "DESIGN.md §4 C11")
 claim("C12",
       "Every signature of a family built with reflect.FuncOf/MakeFunc (0..2/3 fixed parameters over 5 types x 10 tails incl. options map / helper context in both typings / 3 variadic tails x 6 result shapes) x every argument list of length 0..3/4 over 8 values (incl. nil, typed nil pointer) with logging wrappers, with and without a block; compared with a reference binder (who is invoked, with which values, argument evaluation log, auto-supplied map/context carrying the block, result and error handling).",
